@@ -1,23 +1,27 @@
 _c10_bare = lambda name, cfg, dq, dt, nconn=1, t=False: dict(name=name, thorough_only=t, defs=["CFG=" + cfg, "NCONN=%d" % nconn, "WORLD_LL=0", "DEPTH_Q=%d" % dq, "DEPTH_T=%d" % dt])
-_c10_ll   = lambda name, cfg, dq, dt: dict(name=name, defs=["CFG=" + cfg, "NCONN=1", "WORLD_LL=1", "DEPTH_Q=%d" % dq, "DEPTH_T=%d" % dt, "LLW_MAX_PDU=24", "LLW_MAX_TX_LOG=6"])
+_c10_ll   = lambda name, cfg, dq, dt, t=False: dict(name=name, thorough_only=t, defs=["CFG=" + cfg, "NCONN=1", "WORLD_LL=1", "DEPTH_Q=%d" % dq, "DEPTH_T=%d" % dt, "LLW_MAX_PDU=24", "LLW_MAX_TX_LOG=6"])
 reg("C10",
     level="model_checking",
     technique="explicit-state BFS over the real server<> + channel_data_t connection(s) with a notification callback that is a literal copy of link_layer::queue_lcap_notification (world 'bare'), and over the real link_layer<server, llw::radio> with a reference central (world 'll'); a reference model that knows nothing about queue indices or priorities (pending request set per connection, CCCD bits, current values, reference value handles from the GATT layout) judges every emitted PDU; from every reachable state of the bare world a drain with a generously confirming client checks that every pending, subscribed request is delivered exactly once",
     rule="state = byte image of server/link layer + connection(s) + bound values + reference model; transition = one of: CCCD write (00/01/02/03), notify(value_k), notify<uuid_k>(), indicate(value_k), indicate<uuid_k>(), transmit opportunity (l2cap_output / 2N+2 connection events), Handle Value Confirmation, value change; classes = (PDU kind, request path, single/coalesced request, CCCD value, value changed) and request/empty-output kinds",
-    bound="(quick runs 7 of the 13 configurations: N=3 without/with service level priorities, N=4 and 2-connection N=3 and N=5 with priorities, both link layer worlds; thorough runs all) servers with 3/4/5 notify|indicate|both characteristics x {no priorities, service level, server+service level higher_outgoing_priority}; bare world, 1 connection: all event sequences up to depth 6 (N=3), 5 (N=4), 5 (N=5) quick and 8/7/6 thorough, drain from every reachable state; 2 connections (N=3, priorities): depth 5/6; link layer world (N=3, without and with priorities): depth 4/5 where every step that involves the radio is followed by 2N+2 connection events",
+    bound="(quick runs 9 of the 18 configurations: N=3 without/with service level priorities, N=4 / N=5 / 2-connection N=3 with priorities, N=3 with one and with two include declarations per service, N=3 with a duplicated UUID, link layer world with priorities; thorough runs all) servers with 3/4/5 notify|indicate|both characteristics x {no priorities, service level, server+service level higher_outgoing_priority}; additionally N=3/4 servers whose services carry one or two include_service<> declarations (reference handles = service declaration + one attribute per include, then 3 per characteristic; depth 5/7) and an N=3 server where characteristic 2 (later service, raised priority) repeats the UUID of characteristic 0 (depth 5/7); bare world, 1 connection: all event sequences up to depth 6 (N=3), 5 (N=4), 5 (N=5) quick and 8/7/6 thorough, drain from every reachable state; 2 connections (N=3, priorities): depth 5/6; link layer world (N=3, without and with priorities): depth 4/5 where every step that involves the radio is followed by 2N+2 connection events",
     units=[dict(src="harness/C10_notify_routing.cpp",
                 variants=[_c10_bare("b-n3_p0", "n3_p0", 6, 8), _c10_bare("b-n3_p1", "n3_p1", 6, 8), _c10_bare("b-n3_p2", "n3_p2", 6, 8, t=True),
                           _c10_bare("b-n4_p0", "n4_p0", 5, 7, t=True), _c10_bare("b-n4_p1", "n4_p1", 5, 7, t=True), _c10_bare("b-n4_p2", "n4_p2", 5, 7),
                           _c10_bare("b-n5_p0", "n5_p0", 5, 6, t=True), _c10_bare("b-n5_p1", "n5_p1", 5, 6), _c10_bare("b-n5_p2", "n5_p2", 5, 6, t=True),
-                          _c10_bare("b2-n3_p0", "n3_p0", 5, 6, 2, t=True), _c10_bare("b2-n3_p1", "n3_p1", 5, 6, 2)]),
+                          _c10_bare("b2-n3_p0", "n3_p0", 5, 6, 2, t=True), _c10_bare("b2-n3_p1", "n3_p1", 5, 6, 2),
+                          # services with include declarations in front of / inside the notifying service; a duplicated characteristic UUID
+                          _c10_bare("b-n3_i1", "n3_i1", 5, 7), _c10_bare("b-n3_i2p", "n3_i2p", 5, 7), _c10_bare("b-n4_i12", "n4_i12", 5, 6, t=True),
+                          _c10_bare("b-n3_dup", "n3_dup", 5, 7)]),
            dict(src="harness/C10_notify_routing.cpp", link_ll=True,
-                variants=[_c10_ll("ll-n3_p0", "n3_p0", 4, 5), _c10_ll("ll-n3_p1", "n3_p1", 4, 5)])],
+                variants=[_c10_ll("ll-n3_p0", "n3_p0", 4, 5, t=True), _c10_ll("ll-n3_p1", "n3_p1", 4, 5), _c10_ll("ll-n3_i1", "n3_i1", 4, 5, t=True)])],
     quick_deadline=120, thorough_deadline=900,
     assumptions=[
         "'current value' = value at the moment the PDU is built (l2cap_output / end of the connection event), one octet values",
         "a request made while (or followed by a transmit opportunity while) the connection is not subscribed for that kind may be dropped silently - which pending request a fruitless transmit opportunity consumed is the queue's business (C12), so all unsubscribed pending requests become 'maybe pending'",
         "return values of notify()/indicate() are recorded, not judged (the statement only speaks about PDUs)",
         "one-at-a-time indications and starvation behind an unconfirmed indication are C11: the drain confirms after every transmit opportunity",
+        "duplicated characteristic UUID: notify<UUID>()/indicate<UUID>() address the first declared characteristic with that UUID (documented at server::notify<UUID>()); the API offers no way to name a later one, so later duplicates are requested by value only",
         "notify(value)/indicate(value) are only called for characteristics that offer that kind (documented precondition)",
         "all symptoms in a history that contains a request filed under the queue index of another characteristic are reported under one signature (wrong-characteristic-notified:...); after such a failure the branch is not explored further",
         "link layer world: steps are atomic w.r.t. the radio (request API calls happen between connection events, never inside one)"],
